@@ -1,7 +1,18 @@
 import Driver.Wire
 import Ramses.Model.Engine
+import Ramses.Model.ArrayMerge
 namespace Driver
 open Ramses Ramses.Eng
+
+/-- one message of `amerge.run`: src:code:verbI:hasArray:t:mergeable:e1,e2,... -/
+def parseAMsg (s : String) : Option AM.AMsg :=
+  match s.splitOn ":" with
+  | [src, code, vi, ha, t, mg, es] =>
+    match src.toNat?, code.toNat?, parseBool vi, parseBool ha, t.toNat?, parseBool mg with
+    | some src, some code, some vi, some ha, some t, some mg =>
+      some ⟨src, code, vi, ha, t, (if es = "" then [] else es.splitOn ",").filterMap (·.toNat?), mg⟩
+    | _, _, _, _, _, _ => none
+  | _ => none
 
 /-- state text: notPaused|handler|disableSending|disableDiscovery|reading|writePaused -/
 def parseEng (s : String) : Option Eng :=
@@ -26,6 +37,11 @@ def opsEng (op : String) (a : List String) : Option String :=
           (x, acc.2 ++ [s!"{repr res}/{rs.length}/{(rs.filter (· = Res.runtimeError)).length}"])
         | _ => ((guarded (o.endsWith ":raise") acc.1).1, acc.2)) (e, [])
       "ok\t" ++ showEng e' ++ (if outs.isEmpty then "" else "\t" ++ ";".intercalate outs)
+  | "amerge.run", [evs] =>
+    let ms := (if evs = "" then [] else evs.splitOn ";").map parseAMsg
+    if ms.any (·.isNone) then some "bad-arg" else
+    let out := AM.run AM.St.init (ms.filterMap id)
+    some ("ok\t" ++ ";".intercalate (out.map fun m => ",".intercalate (m.elems.map toString)))
   | _, _ => none
 
 end Driver
